@@ -17,6 +17,10 @@
 //!   gate  mode=iou|maha mc= thr= a=ubox(candidate) b=ubox(track) [hist=ubox;ubox..] -> far= iou=|N dist=|N res=X|S:N|S:<bits>
 //!   baked lu= mi= ep=N|<usize>                                -> st=W|P|R|E
 //!   kst   a=xc,yc,ang,asp,h,c                                 -> mean=m0..m9 u=ubox|E ua= au= bb=l,t,w,h,c|E   (initiate -> state -> Universal2DBox / BoundingBox; == both orders)
+//!   seq   a=ubox ops=<op;op;..>                               -> cur=ubox n= gv=<8 f64> fv= pf= ff= gc=<8 f64>|N fc=..|N area= radius=
+//!         ops: g gen_vertices | cl clone | rm:<f32> rotate_mut | r:<f32> rotate | x:/y:/s:/h:<f32> write xc/yc/aspect/height | an:<f32>|N write angle
+//!         afterwards: gv get_vertices(), pf Polygon::from(&b), gc gen_vertices()+get_cached_vertices(); fv/ff/fc the same calls on a FRESH box
+//!         built from the current field values
 //!   vis   kind=E|C t=<f32> d=<f32>                            -> ok=0|1 w=<f32>   (VisualSortMetricType::is_ok / distance_to_weight)
 use similari::track::{MetricQuery, Observation, ObservationAttributes, ObservationMetric, TrackStatus};
 use similari::trackers::epoch_db::EpochDb;
@@ -323,6 +327,56 @@ fn ev_kst(a: &UB) -> String {
         Err(_) => "E".to_string(),
     };
     format!("kst a={} mean={} u={} ua={} au={} bb={}", a.s(), ms.join(","), us, ua, au, bbs)
+}
+
+fn ring8(p: &geo::Polygon<f64>) -> (usize, String) {
+    let ring: Vec<_> = p.exterior().coords().cloned().collect();
+    let mut v = vec![];
+    for c in ring.iter().take(4) {
+        v.push(f64b(c.x));
+        v.push(f64b(c.y));
+    }
+    (ring.len(), v.join(","))
+}
+
+fn ev_seq(a: &UB, ops: &str) -> String {
+    let mut bx = a.real();
+    for op in ops.split(';').filter(|o| !o.is_empty()) {
+        let (k, arg) = match op.split_once(':') {
+            Some((k, v)) => (k, v),
+            None => (op, ""),
+        };
+        match k {
+            "g" => {
+                bx.gen_vertices();
+            }
+            "cl" => bx = bx.clone(),
+            "rm" => bx.rotate_mut(pf(arg)),
+            "r" => bx = bx.rotate(pf(arg)),
+            "x" => bx.xc = pf(arg),
+            "y" => bx.yc = pf(arg),
+            "s" => bx.aspect = pf(arg),
+            "h" => bx.height = pf(arg),
+            "an" => bx.angle = pof(arg),
+            _ => return format!("# unknown op {}", op),
+        }
+    }
+    let cur = UB::of(&bx);
+    let mut fresh = cur.real();
+    let (n, gv) = ring8(&bx.get_vertices());
+    let (_, fv) = ring8(&fresh.get_vertices());
+    let (_, pfv) = ring8(&geo::Polygon::from(&bx));
+    let (_, ffv) = ring8(&geo::Polygon::from(&fresh));
+    let area = bx.area();
+    let radius = bx.get_radius();
+    bx.gen_vertices();
+    fresh.gen_vertices();
+    let gc = bx.get_cached_vertices().as_ref().map(|p| ring8(p).1).unwrap_or_else(|| "N".into());
+    let fc = fresh.get_cached_vertices().as_ref().map(|p| ring8(p).1).unwrap_or_else(|| "N".into());
+    format!(
+        "seq a={} ops={} cur={} n={} gv={} fv={} pf={} ff={} gc={} fc={} area={} radius={}",
+        a.s(), ops, cur.s(), n, gv, fv, pfv, ffv, gc, fc, b(area), b(radius)
+    )
 }
 
 fn ev_vis(kind: &str, t: f32, d: f32) -> String {
@@ -634,6 +688,41 @@ fn gen(seed: u64, n: usize) {
         };
         println!("{}", ev_kst(&u));
     }
+    // ---- API sequences around the vertex cache: generate, then change the box, then ask for the polygon again
+    for i in 0..n {
+        let mut u = gen_ub(&mut r);
+        u.c = 1.0;
+        let m = mag(&mut r, -2.0, 0.8, 23);
+        u.ang = Some(if i % 2 == 0 { m } else { -m });
+        let mut ops: Vec<String> = vec![];
+        if i % 5 != 4 {
+            ops.push("g".into());
+        }
+        let k = 1 + r.below(3);
+        for _ in 0..k {
+            let v = mag(&mut r, -1.0, 2.0, 12);
+            let sv = signed(v, &mut r);
+            let op = match r.below(9) {
+                0 => format!("rm:{}", b(signed(mag(&mut r, -2.0, 0.8, 23), &mut r))),
+                1 => format!("r:{}", b(signed(mag(&mut r, -2.0, 0.8, 23), &mut r))),
+                2 => format!("x:{}", b(sv)),
+                3 => format!("y:{}", b(sv)),
+                4 => format!("s:{}", b(v)),
+                5 => format!("h:{}", b(v)),
+                6 => format!("an:{}", b(signed(mag(&mut r, -2.0, 0.8, 23), &mut r))),
+                7 => "an:N".to_string(),
+                _ => "cl".to_string(),
+            };
+            ops.push(op);
+            if r.chance(1, 4) {
+                ops.push("g".into());
+                if r.chance(1, 2) {
+                    ops.push(format!("rm:{}", b(signed(mag(&mut r, -2.0, 0.8, 23), &mut r))));
+                }
+            }
+        }
+        println!("{}", ev_seq(&u, &ops.join(";")));
+    }
     // ---- VisualSortMetricType: thresholds and distances on and around each other
     for i in 0..n {
         let kind = if i % 2 == 0 { "E" } else { "C" };
@@ -694,6 +783,7 @@ fn replay(path: &str) {
                 ev_gate(&g("mode"), pf(&g("mc")), pf(&g("thr")), &UB::parse(&g("a")), &UB::parse(&g("b")), &hist)
             }
             "kst" => ev_kst(&UB::parse(&g("a"))),
+            "seq" => ev_seq(&UB::parse(&g("a")), &g("ops")),
             "vis" => ev_vis(&g("kind"), pf(&g("t")), pf(&g("d"))),
             "baked" => ev_baked(g("lu").parse().unwrap(), g("mi").parse().unwrap(), if g("ep") == "N" { None } else { Some(g("ep").parse().unwrap()) }, g("db") == "1"),
             _ => format!("# unknown record kind: {}", kind),
